@@ -16,7 +16,11 @@ pub mod time {
     #[derive(Debug)]
     pub struct Sleep { pub deadline: Instant }
     pub fn sleep(d: Duration) -> Sleep { Sleep { deadline: Instant::now() + d } }
-    impl Sleep { pub fn reset(mut self: Pin<&mut Self>, t: Instant) { self.deadline = t; } }
+    impl Sleep {
+        pub fn reset(mut self: Pin<&mut Self>, t: Instant) { self.deadline = t; }
+        pub fn is_elapsed(&self) -> bool { Instant::now() >= self.deadline }
+        pub fn deadline(&self) -> Instant { self.deadline }
+    }
     impl Future for Sleep { type Output = (); fn poll(self: Pin<&mut Self>, _: &mut Context<'_>) -> Poll<()> { if Instant::now() >= self.deadline { Poll::Ready(()) } else { Poll::Pending } } }
 }
 
